@@ -53,11 +53,11 @@ let run (path : string) =
   let pgs : Gauge.gauge list ref = ref [] and pxs : (int * Gauge.ext) list ref = ref [] and pbs : (int * BinNums.coq_Z) list ref = ref [] in
   (* the step being read *)
   let op : string list ref = ref [] in
-  let farm = Hashtbl.create 8 and calc = Hashtbl.create 8 and recv = Hashtbl.create 8 and xenv = Hashtbl.create 8 and lenv = Hashtbl.create 8 in
+  let farm = Hashtbl.create 8 and calc = Hashtbl.create 8 and recv = Hashtbl.create 8 and xenv = Hashtbl.create 8 and lenv = Hashtbl.create 8 and halt = Hashtbl.create 8 in
   let res = ref "" and pays : (string * string * string) list ref = ref [] and split : string list option ref = ref None in
   let gs : (int * Gauge.gauge) list ref = ref [] and es : Gauge.epoch list ref = ref [] and xs : (int * Gauge.ext) list ref = ref [] in
   let bs : (int * BinNums.coq_Z) list ref = ref [] in
-  let reset_step () = op := []; Hashtbl.reset farm; Hashtbl.reset calc; Hashtbl.reset recv; Hashtbl.reset xenv; Hashtbl.reset lenv; res := ""; pays := [];
+  let reset_step () = op := []; Hashtbl.reset farm; Hashtbl.reset calc; Hashtbl.reset recv; Hashtbl.reset xenv; Hashtbl.reset lenv; Hashtbl.reset halt; res := ""; pays := [];
     split := None; gs := []; es := []; xs := []; bs := [] in
   let end_case () =
     if !case <> "" then begin
@@ -130,34 +130,36 @@ let run (path : string) =
        let farms = L.init ng fenv in
        let recvs = L.init ng (fun i -> match (try Hashtbl.find recv i with Not_found -> ["err"]) with
            | "ok" :: a :: _ -> Base.Ok (zs a) | "panic" :: _ -> Base.Panic | _ -> Base.Err (zi 1)) in
+       let halted i = (try Hashtbl.find halt i with Not_found -> false) in
+       L.iteri (fun i (x : Gauge.ext) -> if halted i then bump ("halt:kind" ^ sz x.Gauge.x_kind)) m.Gauge.r_exts;
        let xenvs = L.init nx (fun i -> match (try Hashtbl.find xenv i with Not_found -> ["0"; "0"]) with
            | tot :: n :: rest -> let (g3, _) = groups 3 (int_of_string n) rest in
-             { Gauge.xe_total = zs tot; xe_pop = L.map (function [a; net; cr] -> ((zs a, zs net), zs cr) | _ -> failwith "xenv") g3 }
+             { Gauge.xe_total = zs tot; xe_pop = L.map (function [a; net; cr] -> ((zs a, zs net), zs cr) | _ -> failwith "xenv") g3;
+               xe_halt = halted i }
            | _ -> failwith "xenv line") in
        let lenvs = L.init nx (fun i -> match (try Hashtbl.find lenv i with Not_found -> ["0"; "0"; "noprice"]) with
            | ok :: n :: rest -> let (g2, rest') = groups 2 (int_of_string n) rest in
              { Gauge.le_ok = bool_of_tok ok; le_new = L.map (function [a; v] -> (zs a, zs v) | _ -> failwith "lenv") g2;
-               le_price = (match rest' with "price" :: twa :: dec :: _ -> Some (zs twa, zs dec) | _ -> None) }
+               le_price = (match rest' with "price" :: twa :: dec :: _ -> Some (zs twa, zs dec) | _ -> None); le_halt = halted i }
            | _ -> failwith "lenv line") in
        let benv = { Gauge.be_farm = farms; be_recv = recvs; be_ext = xenvs; be_lend = lenvs } in
        let o = Gauge.Begin (now, benv) in
-       if not (Gauge.op_wf o) then cmpf "env.recv_nonneg" "true" "false";
-       (* known-finding classes met by this step (on the state it starts from) *)
-       (* the class predicates re-run the epochs; skip them where they are false by definition: class 2 needs a
-          failing fee transfer, classes 3 / 4 need a program *)
-       let some_recv_fails = (try L.exists2 (fun (g : Gauge.gauge) r -> g.Gauge.g_swap && (match r with Base.Ok _ -> false | _ -> true)) m.Gauge.r_gauges recvs with Invalid_argument _ -> true) in
-       let k2 = some_recv_fails && Gauge.kf2_begin now benv m in
-       let k3 = m.Gauge.r_exts <> [] && Gauge.kf3_begin now benv m in
+       (* the hypothesis op_wf of the custody theorems on the recorded environment: non-negative fee transfers,
+          every program's population consistent with its recorded total *)
+       if not (Gauge.op_wf o) then cmpf "env.op_wf" "true" "false";
+       (* known-finding class met by this step (on the state it starts from); the class predicate re-runs the
+          hook: skip it where it is false by definition (class 4 needs a lend program) *)
        let k4 = L.exists (fun (x : Gauge.ext) -> BinInt.Z.eqb x.Gauge.x_kind (zi 2)) m.Gauge.r_exts && Gauge.kf4_begin now benv m in
-       if !dirty = "none" then (if k2 then dirty := "kf_C19_2" else if k3 then dirty := "kf_C19_3" else if k4 then dirty := "kf_C19_4");
-       if k2 then bump "kf:C19_2:met"; if k3 then bump "kf:C19_3:met"; if k4 then bump "kf:C19_4:met";
-       (* the input-delimited sufficient condition of c19_program_safe, per program that is due *)
+       if !dirty = "none" && k4 then dirty := "kf_C19_4";
+       if k4 then bump "kf:C19_4:met";
+       (* the hypothesis of c19_program_safe / op_wf on the recorded populations, per program that is due *)
        L.iteri (fun i (x : Gauge.ext) ->
            if x.Gauge.x_active && BinInt.Z.ltb x.Gauge.x_next now && BinInt.Z.ltb x.Gauge.x_kind (zi 2) then begin
              let e = L.nth xenvs i in
-             let safe = Gauge.ext_safe e x in
-             bump (if safe then "program:safe-condition" else "program:outside-safe-condition");
-             if safe && Gauge.kf_C19_3 now e x then cmpf "program.safe_implies_no_overdraw" "true" "false"
+             bump (if Gauge.xenv_wf e then "program:population-consistent" else "program:population-INCONSISTENT");
+             if not (Gauge.xenv_wf e) then cmpf "env.population_consistent" "true" "false";
+             bump (if BinInt.Z.ltb (zs "250000000000000000") (BinInt.Z.mul x.Gauge.x_avail (zi (L.length e.Gauge.xe_pop)))
+                   then "program:amount-above-former-safe-bound" else "program:amount-below-former-safe-bound")
            end) m.Gauge.r_exts;
        (* the implementation's own share calculation for the allocation that is due: diff + share predicate *)
        Hashtbl.iter (fun i toks ->
@@ -165,6 +167,15 @@ let run (path : string) =
            | coins :: c :: rest ->
              let coins = zs coins in
              let env = fenv i in
+             (match env with
+              | Gauge.FarmMaster (fs, _) ->
+                let el = Gauge.eligible env in
+                let pos = L.length (L.filter (fun (_, s) -> BinInt.Z.ltb z0 s) el) in
+                bump (if fs = [] then "master:no-farmers" else if pos = 0 then "master:eligible-none"
+                      else if pos = L.length el then "master:eligible-all" else "master:eligible-some")
+              | Gauge.FarmPlain fs -> bump (if fs = [] then "plain:no-farmers" else "plain:farmers")
+              | Gauge.FarmErr -> bump "farm:err");
+             if BinInt.Z.leb (zs "9007199254740992") coins then bump "calc:allocation>=2^53";
              let mo = Gauge.farm_calc env coins in
              cmpf (Printf.sprintf "calc[%d].class" i) (cls_of mo) c;
              bump ("calc:" ^ c);
@@ -185,6 +196,30 @@ let run (path : string) =
            | _ -> ()) calc;
        let r = Gauge.rstep m o in
        bump ("op:begin:" ^ cls_of r);
+       (* the hook after fix b2d3331: step 1 (epochs and gauges) fails -> the whole hook is dropped; one of the
+          program steps fails -> only that step is dropped.  Which steps kept their writes (model's view; the
+          diff of the program records and balances below is what ties it to the implementation) *)
+       (match Gauge.begin_steps_ok now benv m with
+        | [s1; s2; s3; s4] ->
+          let due k = L.exists (fun (x : Gauge.ext) -> BinInt.Z.eqb x.Gauge.x_kind (zi k) && x.Gauge.x_active && BinInt.Z.ltb x.Gauge.x_next now) m.Gauge.r_exts in
+          if not s1 then bump "hook:epochs-step-failed:whole-hook-dropped";
+          if s1 && due 0 then bump (if s2 then "hook:locker-step:kept" else "hook:locker-step:rolled-back");
+          if s1 && due 1 then bump (if s3 then "hook:vault-step:kept" else "hook:vault-step:rolled-back");
+          if s1 && due 2 then bump (if s4 then "hook:lend-step:kept" else "hook:lend-step:rolled-back");
+          if s1 && not (s2 && s3 && s4) then bump "hook:some-program-step-rolled-back:others-kept";
+          (* an error return AFTER programs before it were processed: a due program precedes the first halted one *)
+          let partial k =
+            let rec go i seen_due = function
+              | [] -> false
+              | (x : Gauge.ext) :: rest ->
+                if not (BinInt.Z.eqb x.Gauge.x_kind (zi k)) then go (i + 1) seen_due rest
+                else if halted i then seen_due
+                else go (i + 1) (seen_due || (x.Gauge.x_active && BinInt.Z.ltb x.Gauge.x_next now)) rest in
+            go 0 false m.Gauge.r_exts in
+          if s1 && not s2 && partial 0 then bump "hook:locker-step:error-after-earlier-program-processed:rolled-back";
+          if s1 && not s3 && partial 1 then bump "hook:vault-step:error-after-earlier-program-processed:rolled-back";
+          if s1 && not s4 && partial 2 then bump "hook:lend-step:error-after-earlier-program-processed:rolled-back"
+        | _ -> ());
        (match r with
         | Base.Ok (s', dp) ->
           st := s';
@@ -197,7 +232,7 @@ let run (path : string) =
           cmpf "payouts" (S.concat "," ml) (S.concat "," il);
           if ml <> [] then nt := true
         | _ ->
-          (* the hook recovers the panic and drops every write: nothing may have been paid *)
+          (* step 1 failed: the outer wrapper recovers the panic and drops every write: nothing may have been paid *)
           cmpf "payouts" "" (S.concat "," (L.map (fun (d, a, v) -> d ^ ":" ^ a ^ ":" ^ v) !pays)));
        (* predicates on the implementation's before / after records *)
        let igs = L.map snd (L.rev !gs) in
@@ -224,7 +259,7 @@ let run (path : string) =
                | Some (x : Gauge.ext) when BinInt.Z.eqb x.Gauge.x_denom dz -> zadd acc (zsub x.Gauge.x_avail x'.Gauge.x_avail)
                | _ -> acc) z0 (L.rev !xs) in
            if not (Gauge.holds_C19_paid paid (zadd booked_g booked_x) recvd b b') then
-             pf "paid_le_booked" (if k2 then "kf_C19_2" else !dirty)
+             pf "paid_le_booked" !dirty
                (Printf.sprintf "denom=%d_paid=%s_booked=%s_recv=%s_bal=%s->%s" d (sz paid) (sz (zadd booked_g booked_x)) (sz recvd) (sz b) (sz b'))) (L.rev !bs)
      | o :: _ -> bump ("op:unknown:" ^ o));
     diff_state ();
@@ -242,6 +277,7 @@ let run (path : string) =
       | "recv" :: i :: rest -> Hashtbl.replace recv (int_of_string i) rest; Buffer.add_string sig_ line
       | "xenv" :: i :: rest -> Hashtbl.replace xenv (int_of_string i) rest; Buffer.add_string sig_ line
       | "lenv" :: i :: rest -> Hashtbl.replace lenv (int_of_string i) rest; Buffer.add_string sig_ line
+      | "halt" :: i :: b :: _ -> Hashtbl.replace halt (int_of_string i) (bool_of_tok b); Buffer.add_string sig_ line
       | "res" :: c :: _ -> res := c
       | "pay" :: d :: a :: v :: _ -> pays := (d, a, v) :: !pays
       | "split" :: rest -> split := Some rest
